@@ -94,6 +94,39 @@ def check_case(ops: list[list[dict]], tags: dict[int, int], dec: dict, comp: dic
             out.append(("wrong-statement:Switch", f"op {code}@{off}: entry ({line}, {col}) points at {rest[:40]!r}"))
         elif code.startswith("Case") and code != "CaseText" and not rest.startswith("case"):
             out.append(("wrong-statement:Case", f"op {code}@{off}: entry ({line}, {col}) points at {rest[:40]!r}"))
+    if not ssbs:
+        # every case header is a statement of its own: each "case ...:" line of the text (and each "default:" of a message
+        # switch, which is an op - it is followed by a string) is the place of the entry of one Case op / DefaultText op,
+        # and no two such ops share a place
+        seen_at: dict = {}
+        case_at, default_at = set(), set()
+        for r0 in ops:
+            for op in r0:
+                c = op["code"]
+                if not (c.startswith("Case") or c == "DefaultText") or op["off"] not in entries:
+                    continue
+                at = tuple(entries[op["off"]])
+                if at in seen_at:
+                    out.append(("case-headers-share-an-entry", f"ops {seen_at[at]} and {c}@{op['off']} are both mapped to {at}: "
+                                                              f"{lines[at[0]] if 0 <= at[0] < len(lines) else ''!r}"))
+                seen_at[at] = f"{c}@{op['off']}"
+                (default_at if c == "DefaultText" else case_at).add(at)
+        in_string = False
+        for ln, tx in enumerate(lines):
+            # skip the inside of multi-line string literals
+            if in_string:
+                if tx.count("\"\"\"") % 2 == 1 or tx.count("'''") % 2 == 1:
+                    in_string = False
+                continue
+            if tx.count("\"\"\"") % 2 == 1 or tx.count("'''") % 2 == 1:
+                in_string = True
+            st = tx.lstrip(" ")
+            col = len(tx) - len(st)
+            if re.match(r"case\b.*:\s*$", st) and (ln, col) not in case_at:
+                out.append(("case-header-without-entry", f"the case header on line {ln} ({st!r}) is not the place of any Case op's entry"))
+            elif st.rstrip() == "default:" and ln + 1 < len(lines) and lines[ln + 1].lstrip(" ")[:1] in ("'", '"', "{") \
+                    and (ln, col) not in default_at:
+                out.append(("message-default-without-entry", f"the default of a message switch on line {ln} is not the place of any DefaultText op's entry"))
     printed = {}
     for m in re.finditer(r"\(\s*(\d{6,})\b", text):
         printed[int(m.group(1))] = text.count("\n", 0, m.start())
@@ -214,6 +247,13 @@ def main() -> None:
     cases, stats = gen_cases(run.seed, 500 if q else 6000, 300 if q else 4000, 300 if q else 4000, "C09",
                              cfg_kw={"forward_jumps_only": True})
     tagged = [(c, *tag_ops(c.ops)) for c in cases]
+    # strings with characters at which str.splitlines breaks although they are no line feeds (written raw into one-line
+    # literals): the line of every later entry depends on counting line feeds only
+    xr = random.Random(f"C09-strings-{run.seed}")
+    for _, ops, _ in tagged[::7]:
+        strs = [p for r0 in ops for op in r0 for p in op["params"] if p[0] == "s" and "\n" not in p[1]]
+        if strs:
+            xr.choice(strs)[1] = xr.choice(["a\x0bb", "x\u2028y", "\x85", "p\x1cq\x1dr", "tab\there"])
     dec = run_impl([("decompile", ops, c.infos, c.coros) for c, ops, _ in tagged])
     sdec = run_impl([("ssbs_decompile", ops, c.infos, c.coros) for c, ops, _ in tagged[: (200 if q else 2000)]])
     comp = run_impl([("compile", d["text"]) if d["ok"] else ("compile", "") for d in dec])
